@@ -615,6 +615,38 @@ func RunC20(ctx *core.Ctx) {
 			add(c20Scenario{Codec: codec, Level: r.Intn(30), Ops: ops})
 		}
 	}
+	// (L) large inputs: limits of the third-party streams (windows, block sizes, buffer growth)
+	// depend on the level and only show beyond a few MiB: every exported level of every codec x
+	// sizes around 4, 5 and 9 MiB (thorough: up to 33 MiB, zstd 64 MiB) x incompressible /
+	// compressible, one codec value per (level, size)
+	var large []c20Scenario
+	nLevels := map[string]int{"snappy": 2, "uncompressed": 2, "gzip": 6, "brotli": 5, "zstd": 5, "lz4": 5}
+	largeSizes := []int{4<<20 + 1, 5 << 20, 9 << 20}
+	if ctx.Thorough() {
+		largeSizes = append(largeSizes, 17<<20, 33<<20+1)
+	}
+	for _, codec := range c20Codecs {
+		for lv := 0; lv < nLevels[codec]; lv++ {
+			if codec == "brotli" && lv == 4 {
+				continue // quality 11: seconds per MiB
+			}
+			sizes := largeSizes
+			if codec == "zstd" && ctx.Thorough() {
+				sizes = append(append([]int{}, largeSizes...), 64<<20)
+			}
+			for si, n := range sizes {
+				ops := []c20Op{
+					{K: "rt", In: c20Input{Kind: "rand", Len: n, Seed: int64(lv*31 + si)}, EDst: "nil", DDst: []string{"nil", "exactcap", "smallcap"}[si%3]},
+					{K: "rt", In: c20Input{Kind: "text", Len: n, Seed: int64(lv*37 + si)}, EDst: "zero", DDst: []string{"zero", "nil", "large"}[si%3]},
+				}
+				if !ctx.Thorough() && si == 1 {
+					ops = ops[:1] // quick: the middle size with the incompressible input only
+				}
+				large = append(large, c20Scenario{Codec: codec, Level: lv, Ops: ops, TimeoutMs: 60000})
+				ctx.Hist("c20.large", fmt.Sprintf("%s/level%d", codec, lv))
+			}
+		}
+	}
 	// (c) N goroutines sharing one codec value: valid round trips only, and with failing decodes
 	nConc := ctx.Scale(12, 80)
 	for _, codec := range c20Codecs {
@@ -668,7 +700,14 @@ func RunC20(ctx *core.Ctx) {
 	rest := scs[nDirected:]
 	rs.Shuffle(len(rest), func(i, j int) { rest[i], rest[j] = rest[j], rest[i] })
 	const batch = 12
-	jobs := make(chan []c20Scenario, len(scs)/batch+2)
+	jobs := make(chan []c20Scenario, len(scs)/batch+len(large)+2)
+	// the large-input scenarios go first, one per job, so that they spread over the workers
+	rs.Shuffle(len(large), func(i, j int) { large[i], large[j] = large[j], large[i] })
+	for i := range large {
+		large[i].ID = id
+		id++
+		jobs <- large[i : i+1]
+	}
 	for _, part := range [][]c20Scenario{scs[:nDirected], rest} {
 		for i := 0; i < len(part); i += batch {
 			j := i + batch
@@ -739,7 +778,7 @@ func RunC20(ctx *core.Ctx) {
 		}()
 	}
 	wg.Wait()
-	fmt.Fprintf(os.Stderr, "[c20] L1 histories: %d scenarios in %.1fs, %d failing\n", len(scs), time.Since(t0).Seconds(), len(failing))
+	fmt.Fprintf(os.Stderr, "[c20] L1 histories: %d scenarios in %.1fs, %d failing\n", len(scs)+len(large), time.Since(t0).Seconds(), len(failing))
 	// analysis of failures (confirm alone, shrink, key): in scenario-id order for determinism
 	sortOutcomes(failing)
 	sem := make(chan struct{}, nw)
@@ -813,8 +852,10 @@ func c20Account(ctx *core.Ctx, o c20Outcome) {
 				ctx.Hist("c20.len", "256..65534")
 			case op.In.Len <= 65537:
 				ctx.Hist("c20.len", "65535..65537")
+			case op.In.Len <= 4<<20:
+				ctx.Hist("c20.len", "65538..4MiB")
 			default:
-				ctx.Hist("c20.len", ">65537")
+				ctx.Hist("c20.len", ">4MiB")
 			}
 			if res.Status == "ok" && res.EncLen >= op.In.Len && op.In.Len > 0 {
 				ctx.Hist("c20.compressibility", "incompressible")
